@@ -135,8 +135,8 @@ def first_difference(a, b):
 
 
 def in_language(fl, engine):
-    def ident(name):
-        return bool(name) and fl.Op.as_identifier(name) == name
+    def ident(name):  # own definition (letters of any alphabet, digits, underscore; not starting with a digit)
+        return bool(name) and all(ch.isalnum() or ch == "_" for ch in name) and not name[0].isnumeric()
 
     def text_ok(s):
         return "\n" not in s and "#" not in s and s == s.strip()
@@ -217,6 +217,27 @@ def run(ctx):
                                         fl.FllImporter().from_string(cand)
                                     except Exception:
                                         pass
+                        if variant == "grid":
+                            # the same engine object exported again: after a rule weight was changed on the object, and under
+                            # another decimals setting (nothing of an earlier export may be remembered)
+                            rules = [r for rb in engine.rule_blocks for r in rb.rules]
+                            if rules:
+                                r = rnd.choice(rules)
+                                r.weight = rnd.choice([0.5, 0.25, 1.0, 0.0, E.G.snap(rnd.uniform(0.01, 0.9), d)])
+                                if r.weight != 1.0 and abs(r.weight - 1.0) <= 0.0015:
+                                    r.weight = 0.5
+                                ctx.hit("event:re-export after a weight change")
+                                try:
+                                    fl.FllExporter().to_string(engine)
+                                except Exception:
+                                    pass
+                            d2 = decs[(d + 3) % 9]
+                            with fl.settings.context(decimals=d2):
+                                ctx.hit("event:re-export under other decimals")
+                                try:
+                                    fl.FllExporter().to_string(engine)
+                                except Exception:
+                                    pass
                         if i < 2 and variant == "grid":
                             ctx.sample("engine", {"decimals": d, "fll": text[:2500]})
         from . import c01  # the shipped examples: export each (monitor judges), and process through the re-import
@@ -233,7 +254,7 @@ def run(ctx):
         probe.report(ctx)
         ctx.extra["printer_parser_pairs_with_values"] = sorted(f"{c}.{n}" for c, n in mon.pairs)
         reach.report(ctx)
-    ctx.require("hook:FllExporter.to_string", "hook:FllImporter.from_string", "compare:text fixed point", "compare:structure", "compare:normalisation fixed point", "compare:identical outputs", "event:import accepted")
+    ctx.require("hook:FllExporter.to_string", "hook:FllImporter.from_string", "compare:text fixed point", "compare:structure", "compare:normalisation fixed point", "compare:identical outputs", "event:import accepted", "event:re-export after a weight change", "event:re-export under other decimals", "workload:exotic configuration")
     for d in decs:
         ctx.require(f"decimals:{d}")
 
